@@ -271,7 +271,8 @@ def gen_layout(r, i):
         # initial cells of another type than the table's usual one (bool vs int are interchangeable in Python): register tables
         # initialised from [False] * n, bit tables from [0] * n - what is written afterwards must still be stored as written
         start, n = r.choice([0, 1, 3]), r.choice([8, 16, 40])
-        layout['units'][1] = {'c': {'type': 'seq', 'start': start, 'values': [0] * n}, 'd': {'type': 'seq', 'start': start, 'values': [1] * n},
+        layout['units'][1] = {'c': {'type': 'seq', 'start': start, 'values': [r.choice([0, 0, 0xFF00, 2]) for _ in range(n)]},
+                              'd': {'type': 'seq', 'start': start, 'values': [r.choice([0, 1, 0x10, 0xFF00, 4]) for _ in range(n)]},
                               'i': {'type': 'seq', 'start': start, 'values': [False] * n}, 'h': {'type': 'seq', 'start': start, 'values': [False] * n}, 'alias': {}}
     if i % 6 == 4:
         layout['via_defaults'] = True          # addressing mode configured through the process-wide Defaults.ZeroMode
